@@ -304,7 +304,30 @@ def subclasses_rec(repo):
 def flat_fresh(repo):
     tree = _parse(repo, 'spyne/model/complex.py')
     fn = find_function(tree, ['ComplexModelBase', 'get_flat_type_info'])
-    if [_u(s) for s in _stmts(fn)] != ['return _get_flat_type_info(cls, TypeInfo())']:
+    # what must hold: the accumulator handed to _get_flat_type_info is a TypeInfo() made for this call, it is
+    # the object returned, and nothing else in the body calls _get_flat_type_info or rebinds the result
+    st = _stmts(fn)
+    call = '_get_flat_type_info(cls, TypeInfo())'
+    calls = [n for n in ast.walk(fn) if isinstance(n, ast.Call) and _u(n.func) == '_get_flat_type_info']
+    if len(calls) != 1 or _u(calls[0]) != call:
+        raise TranslateError('get_flat_type_info: not exactly one call %s' % call)
+    if [_u(s) for s in st] == ['return ' + call]:
+        pass
+    elif _u(st[0]) == 'retval = ' + call and _u(st[-1]) == 'return retval':
+        for n in ast.walk(fn):
+            if n is st[0]:
+                continue
+            tg = []
+            if isinstance(n, ast.Assign):
+                tg = n.targets
+            elif isinstance(n, (ast.AugAssign, ast.AnnAssign)):
+                tg = [n.target]
+            elif isinstance(n, (ast.For, ast.comprehension)):
+                tg = [n.target]
+            for t in tg:
+                if 'retval' in [x.id for x in ast.walk(t) if isinstance(x, ast.Name)] and not isinstance(t, (ast.Subscript, ast.Attribute)):
+                    raise TranslateError('get_flat_type_info: the accumulator is rebound')
+    else:
         raise TranslateError('get_flat_type_info: not a fresh TypeInfo per class')
     inner = find_function(tree, ['_get_flat_type_info'])
     got = [_u(s) for s in _stmts(inner)]
